@@ -149,33 +149,51 @@ def make_stages(prog, restored=None, mt=0):
     n_l = len(set([l for _,l,_ in exp._triples])); n_e = len(set([e for e,_,_ in exp._triples]))
     return exp, chunks, {'n_learners':n_l,'n_environments':n_e,'description':exp._description}
 
-def emulate(prog, seed=1, processes=2, mc=0, mt=0, arrival='identity', result_file=None, restored=None, on_chunk=None):
-    """Multi-process execution emulated in-process from coba's own stages: every chunk reaches a worker as a pickled copy
-    together with a pickled ProcessFilter (what a spawned child receives), the worker runs in a context reset to import-time
-    defaults, worker outputs reach the encoder in the order selected by `arrival`."""
+class EmuMP:
+    """Stand-in for CobaMultiprocessor inside the REAL Experiment.run: every chunk reaches a 'worker' as a pickled copy together with a
+    pickled ProcessFilter (what a spawned child receives); the worker runs in a context reset to import-time defaults; worker outputs reach
+    the encoder in the order selected by `arrival`."""
+    arrival = 'identity'
+    on_chunk = None
+    def __init__(self, filter, processes=1, maxtasksperchild=0, chunked=False):
+        self._filter = filter
+    def filter(self, items):
+        outputs = []
+        saved = (CobaContext._logger, CobaContext._cacher, CobaContext._store, getattr(CobaContext,'search_paths',None))
+        store = dict(CobaContext.store)
+        try:
+            for ci,chunk in enumerate(items):
+                pf = CobaMultiprocessor.ProcessFilter(self._filter, NullLogger(), NullCacher(), dict(store), ListSink())
+                pf2, chunk2 = pickle.loads(pickle.dumps((pf, chunk)))
+                reset_context()
+                outs = pickle.loads(pickle.dumps(list(pf2.filter(chunk2))))     # results travel back through a pipe
+                if EmuMP.on_chunk: EmuMP.on_chunk(ci, chunk2, outs)
+                outputs.append(outs)
+        finally:
+            CobaContext._logger, CobaContext._cacher, CobaContext._store = saved[:3]
+            CobaContext.learning_info.clear()
+        a = EmuMP.arrival
+        if a == 'reversed': outputs = outputs[::-1]
+        elif a == 'interleave': outputs = outputs[1::2] + outputs[0::2]
+        elif a == 'rotate': outputs = outputs[1:] + outputs[:1]
+        for outs in outputs: yield from outs
+
+def emulate(prog, seed=1, mc=0, mt=0, arrival='identity', result_file=None, on_chunk=None, triples=None):
+    """The real Experiment.run with its multiprocessor replaced by the in-process worker emulation."""
+    import coba.experiments.core as core
     reset_context()
-    exp, chunks, meta = make_stages(prog, restored, mt)
-    meta['seed'] = seed
-    store = {'experiment_seed': seed}
-    pf = CobaMultiprocessor.ProcessFilter(ProcessTasks(), NullLogger(), NullCacher(), store, ListSink())
-    outputs = []
-    for ci,chunk in enumerate(chunks):
-        pf2, chunk2 = pickle.loads(pickle.dumps((pf, chunk)))
-        reset_context()
-        outs = list(pf2.filter(chunk2))
-        outs = pickle.loads(pickle.dumps(outs))            # results travel back through a pipe
-        if on_chunk: on_chunk(ci, chunk2, outs)
-        outputs.append(outs)
-    reset_context()
-    if arrival == 'reversed': outputs = outputs[::-1]
-    elif arrival == 'interleave': outputs = outputs[1::2] + outputs[0::2]
-    elif arrival == 'rotate': outputs = outputs[1:] + outputs[:1]
-    flat = [o for outs in outputs for o in outs]
-    preamble = Identity() if restored else Insert([["T0",meta]])
-    sink   = DiskSink(result_file,batch=1) if result_file else ListSink(foreach=True)
-    source = DiskSource(result_file) if result_file else ListSource(sink.items)
-    Pipes.join(ListSource(flat), preamble, TransactionEncode(restored), sink).run()
-    return Pipes.join(source, TransactionDecode(), TransactionResult()).read()
+    old = core.CobaMultiprocessor
+    core.CobaMultiprocessor = EmuMP
+    EmuMP.arrival, EmuMP.on_chunk = arrival, on_chunk
+    try:
+        if triples is not None: e = Experiment(triples)
+        else:
+            args, kw = PROGRAMS[prog]()
+            e = Experiment(*args, **kw)
+        return e.run(result_file, quiet=True, seed=seed, processes=2, maxchunksperchild=mc, maxtasksperchunk=mt)
+    finally:
+        core.CobaMultiprocessor = old
+        EmuMP.arrival, EmuMP.on_chunk = 'identity', None
 
 def run_real_subprocess(prog, seed, processes, mc, mt, result_file=None, timeout=120):
     """a REAL multi-process Experiment.run in a separate interpreter (pool workers are daemonic and may not spawn)"""
